@@ -10,6 +10,7 @@ import (
 	"os"
 	"os/exec"
 	"path/filepath"
+	"runtime"
 	"strings"
 	"time"
 
@@ -169,6 +170,12 @@ func ReexecTo(path string, out0 io.Writer) int {
 		b := blk
 		w.beginOn(rep, &b)
 		for _, tx := range blk.Txs {
+			if os.Getenv("VERIF_REEXEC_GC") == "1" {
+				// memory layout and collector timing are the node's own business: this node collects
+				// garbage before every transaction (whatever the code parks in sync.Pools is gone)
+				runtime.GC()
+				runtime.GC()
+			}
 			out.TxHashes = append(out.TxHashes, resHash(rep.App.DeliverTx(abci.RequestDeliverTx{Tx: tx})))
 		}
 		rep.App.EndBlock(abci.RequestEndBlock{Height: blk.Height})
@@ -204,10 +211,17 @@ func (cs *checkerSet) crossProcess(w *World) *core.Violation {
 	// the child's wall clock: the real one, or (clock-skew fault) a simulated one set to 2000-01-01 plus
 	// a drawn number of years - a node replaying the history at another time, or with a wrong clock
 	skewYears := []int{0, 0, 3, 11, 23, 26, 27, 30, 45, 95}[r.Choose(10, "c07.child-clock")]
+	childGC := r.Bool(50, "c07.child-gc")
+	gcEnv := "VERIF_REEXEC_GC=0"
+	if childGC {
+		gcEnv = "VERIF_REEXEC_GC=1"
+		r.Count("fault:child-collects-garbage-before-every-tx")
+	}
 	var stdout, stderr bytes.Buffer
 	var outBytes []byte
 	if skewYears == 0 {
 		cmd := exec.Command(os.Args[0], "-reexec", f.Name())
+		cmd.Env = append(os.Environ(), gcEnv)
 		cmd.Stdout, cmd.Stderr = &stdout, &stderr
 		if err := cmd.Run(); err != nil {
 			panic(fmt.Sprintf("re-execution child failed: %v\n%s", err, stderr.String()))
@@ -218,7 +232,7 @@ func (cs *checkerSet) crossProcess(w *World) *core.Violation {
 		of := f.Name() + ".out"
 		defer os.Remove(of)
 		cmd := exec.Command(bin, "-test.run=^TestReexecSkewed$", "-test.count=1")
-		cmd.Env = append(os.Environ(), "VERIF_REEXEC_FILE="+f.Name(), "VERIF_REEXEC_OUT="+of, fmt.Sprintf("VERIF_REEXEC_SKEW_YEARS=%d", skewYears))
+		cmd.Env = append(os.Environ(), gcEnv, "VERIF_REEXEC_FILE="+f.Name(), "VERIF_REEXEC_OUT="+of, fmt.Sprintf("VERIF_REEXEC_SKEW_YEARS=%d", skewYears))
 		cmd.Stdout, cmd.Stderr = &stdout, &stderr
 		if err := cmd.Run(); err != nil {
 			panic(fmt.Sprintf("skewed-clock re-execution child failed: %v\n%s\n%s", err, stdout.String(), stderr.String()))
